@@ -158,7 +158,8 @@ def _dirs(g):
                     layout.line_directive(500 + 3 * k, keyword=False)]}
     if isinstance(g, (tuple, list)):
         k = g[1]
-        return {k: [layout.line_directive(1, f"r{k}.h", flags=(1,), keyword=False)]}
+        # (every second one restarts at line 0, which cpp itself emits: '# 0 "<built-in>"')
+        return {k: [layout.line_directive(k % 2, f"r{k}.h", flags=(1,), keyword=False)]}
     # every third name contains an escaped quote and a blank (what cpp emits
     # for such a file): the name is everything between the outer quotes
     name = f'in\\"c {g}.h' if g % 3 == 2 else f"inc{g}.h"
